@@ -156,6 +156,10 @@ func (e *encoder) enc(sb *strings.Builder, v reflect.Value) {
 			if i > 0 {
 				sb.WriteString(",")
 			}
+			if v.Type().Field(i).Name == "_" {
+				sb.WriteString("_") // blank fields are not part of the value
+				continue
+			}
 			e.enc(sb, v.Field(i))
 		}
 		sb.WriteString(")")
